@@ -246,6 +246,77 @@ def gen_case(rng):
     return 'V %s %s' % (show(a), show(b))
 
 
+# ------------------------------------------------------------------ value histories (in-place mutation)
+def gen_history(rng):
+    """W case: an object mutated in place; each step is op=<value the object must then have>.  The
+    harness hashes the object right before and IMMEDIATELY after every mutation (no other hash call in
+    between), then compares with a fresh equal object in the other order."""
+    r = rng.random()
+    steps = []
+    nops = rng.choice([1, 2, 3, 4, 6, 9])
+    if r < .40:                                          # String: rem / append / shrink / assign, same buffer
+        cur = bytes(rng.choice(b'abcdeABC xyz') for _ in range(rng.choice([1, 3, 6, 11, 16, 24, 40])))
+        init = ('S', cur)
+        for _ in range(nops):
+            k = rng.random()
+            if k < .3 and len(cur) > 0:
+                i = rng.randrange(len(cur)); j = rng.randrange(i + 1, len(cur) + 1)
+                sub = cur[i:j]; cur = cur.replace(sub, b'', 1)
+                steps.append(('r' + show(('S', sub)), ('S', cur)))
+            elif k < .5:
+                add = bytes(rng.choice(b'abcXYZ!') for _ in range(rng.choice([1, 1, 2, 5])))
+                cur = cur + add; steps.append(('p' + show(('S', add)), ('S', cur)))
+            elif k < .7 and len(cur) > 0:
+                n = rng.randrange(0, len(cur) + 1); cur = cur[:n]; steps.append(('z%d' % n, ('S', cur)))
+            else:
+                n = rng.choice([len(cur), len(cur), max(0, len(cur) - 1), rng.randrange(0, 20)])   # often the same length
+                cur = bytes(rng.choice(b'pqrstuv012') for _ in range(n)); steps.append(('a' + show(('S', cur)), ('S', cur)))
+    elif r < .55:                                        # other scalars: assign
+        ty = rng.choice(['I', 'F', 'R', 'B', 'P%d' % rng.choice(BLOB_SIZES)])
+        init = g_scalar(rng, ty)
+        for _ in range(nops):
+            v = g_scalar(rng, ty); steps.append(('a' + show(v), v))
+    elif r < .80:                                        # sequences: push / pop / set / assign
+        kind = rng.choice('ALU')
+        ty = rng.choice(['S', 'S', 'I', 'F', 'P8'])
+        els = [g_scalar(rng, ty) for _ in range(rng.choice([1, 2, 3, 5]))]
+        init = (kind, list(els))
+        for _ in range(nops):
+            k = rng.random()
+            if k < .35:
+                x = g_scalar(rng, ty); els.append(x); steps.append(('u' + show(x), (kind, list(els))))
+            elif k < .55 and els:
+                els.pop(); steps.append(('o', (kind, list(els))))
+            elif k < .85 and els and kind != 'U':
+                i = rng.randrange(len(els)); x = g_scalar(rng, ty); els[i] = x
+                steps.append(('sI%d,%s' % (i, show(x)), (kind, list(els))))
+            elif kind != 'U':
+                els = [g_scalar(rng, ty) for _ in range(rng.choice([1, 1, 2, 4]))]    # an empty literal would retype the container
+                steps.append(('a' + show((rng.choice('AL'), list(els))), (kind, list(els))))
+    else:                                                # maps: set / overwrite / rem
+        kind = rng.choice('HE')
+        kty, vty = rng.choice(['I', 'S']), rng.choice(['S', 'S', 'I', 'F'])
+        d = {}
+        for _ in range(rng.choice([1, 2, 3, 5])):
+            k = g_scalar(rng, kty); d[k[1]] = (k, g_scalar(rng, vty))
+        def term():
+            kvs = list(d.values())
+            if kind == 'E': kvs.sort(key=key_sort)
+            return (kind, kvs)
+        init = term()
+        for _ in range(nops):
+            x = rng.random()
+            if x < .35 and d:
+                kk = rng.choice(sorted(d)); k = d[kk][0]; v = g_scalar(rng, vty); d[kk] = (k, v)     # overwrite in place
+                steps.append(('s%s:%s' % (show(k), show(v)), term()))
+            elif x < .7:
+                k = g_scalar(rng, kty); v = g_scalar(rng, vty); d[k[1]] = (d[k[1]][0] if k[1] in d else k, v)
+                steps.append(('s%s:%s' % (show(k), show(v)), term()))
+            elif d:
+                kk = rng.choice(sorted(d)); k = d.pop(kk)[0]; steps.append(('r' + show(k), term()))
+    return 'W ' + show(init) + ''.join(' %s=%s' % (op, show(v)) for op, v in steps)
+
+
 def gen_bytes_cases(rng, per_len, long_n):
     cs = []
     for n in range(0, 97):
@@ -404,6 +475,20 @@ def oracle(case, impl, spec):
         return None
     if 'CRASH' in impl or 'TIMEOUT' in impl or 'EXIT(' in impl:
         return 'the library crashed or hung: %s' % impl[-60:]
+    if case.startswith('W '):
+        for n, step in enumerate(impl.split(' | ')):
+            f = fields(step)
+            if step.startswith('BUILD-RAISED') or step.startswith('BAD'):
+                return None
+            if f.get('own') == 'STALE':
+                return ('step %d: hash(obj) taken right after the mutation is %s, which is not the hash of the value the object '
+                        'holds now (hash depends on more than the current value)' % (n, f.get('h')))
+            if f.get('fr') not in ('ok', None) and not f.get('fr', '').startswith('BUILD'):
+                return ('step %d: mutated object vs fresh equal object: %s   [f = the fresh object hashes differently, '
+                        'o = hash(obj) changed when asked again, e/E = not eq]' % (n, f.get('fr')))
+            if f.get('ab') == 'STALE':
+                return 'step %d: a String allocated where another one was freed reports the hash of the freed one' % n
+        return None
     if impl.startswith('BUILD-RAISED') or impl.startswith('BADCASE'):
         return None          # counted by corr (the model has a result, the harness has none)
     f = fields(impl)
@@ -433,6 +518,16 @@ def top_kinds(case):
 def corr(case, impl, model):
     if case.startswith('M '):
         return None if impl.split(' ')[0] == model else 'hash_data: implementation %s / model %s' % (impl, model)
+    if case.startswith('W '):
+        a, b = impl.split(' | '), model.split(' | ')
+        if len(a) != len(b):
+            return 'history: implementation has %d steps, model %d: %s' % (len(a), len(b), impl[-80:])
+        for n, (x, y) in enumerate(zip(a, b)):
+            if fields(x).get('h') != fields(y).get('h'):
+                return 'step %d: hash after the mutation: implementation %s / model %s' % (n, x, y)
+            if fields(x).get('fr', 'ok').startswith('BUILD'):
+                return 'step %d: the expected value could not be built' % n
+        return None
     fi, fm = fields(impl), fields(model)
     if 'cmp' not in fi:
         return 'no observation from the implementation (%s), model says %s' % (impl[:60], model[:60])
@@ -461,6 +556,8 @@ def corr(case, impl, model):
 def nontrivial(case, impl):
     if case.startswith('M '):
         return True
+    if case.startswith('W '):
+        return impl.count(' | ') >= 1          # at least one in-place mutation observed
     f = fields(impl)
     return f.get('cmp', '').startswith('0,') or f.get('cmp', '').endswith(',0')
 
@@ -484,6 +581,13 @@ CORPUS = [
     'V A[A[I1],A[I2,I3]] A[A[I1],A[I2,I3]]',
     'V H{} E{}',
     'M ', 'M 48656c6c6f',
+    # value histories: hash right after an in-place mutation (seeded C16-r6-2: String_Hash memoised by buffer address)
+    'W S48656c6c6f20576f726c64 rS6c6f20576f=S48656c726c64 aS546869727374=S546869727374 pS79=S54686972737479 z3=S546869',
+    'W S48656c6c6f aS48656c6c6f=S48656c6c6f',
+    'W A[S4142] sI0,S4344=A[S4344]',
+    'W H{I1:S4142} sI1:S4344=H{I1:S4344} rI1=H{}',
+    'W I5 aI7=I7 aI-1=I-1',
+    'W F0000000000000000 aF8000000000000000=F8000000000000000',
 ]
 
 
@@ -499,7 +603,13 @@ def run(ctx):
         'Array, List, Table, Tree, Tuple; 7 construction histories with reserves, junk pushed and removed, reversed and rotated '
         'insertion orders, overwritten values, assignment from the other kind; copy and copy of copy) and checks hash and eq '
         'against the base object, then assign and swap. A value case is non-trivial when the implementation finds the pair eq in '
-        'at least one direction (the hypothesis of "eq implies equal hash" is exercised); distinct = distinct implementation transcripts.')
+        'at least one direction (the hypothesis of "eq implies equal hash" is exercised); distinct = distinct implementation transcripts. '
+        'History cases (W): a String / Int / Float / Ref / Box / struct / Array / List / Tuple / Table / Tree object is mutated in place '
+        '(rem, append, shrinking resize, assign of the same length, push, pop, set, overwrite, rem of a key); the object is hashed right '
+        'before and IMMEDIATELY after every mutation with no other hash call and no exception frame in between (Cello\'s try looks up a '
+        'String-keyed Table), the result is compared with the harness\'s own hash_data over the current bytes, with the model\'s hash of '
+        'the expected value, and with a fresh equal object hashed afterwards (then the mutated object again), and a String allocated in '
+        'a just-freed buffer must hash as its own bytes; a history case is non-trivial when at least one mutation was observed.')
     ctx.assumptions += [
         'C text tied by correspondence only: extracted Gallina model (HashModel.v) vs the library built from the working tree; '
         'constants and shapes of hash_data (tail shape), Int_Hash, Float_Hash (shape), Float_Cmp (form), memswap (loop plan), Table_Cmp, the XOR folds re-extracted into Generated.v; the theorems hold for every admissible shape',
@@ -537,6 +647,10 @@ def run(ctx):
                              % (len(ex), 'Array vs List' if quick else 'all 9 pairs of Array/List/Tuple',
                                 'maps only in the thorough tier' if quick else
                                 'all pairs of maps over keys {0,5,10} x values {1,2} for Table/Table, Table/Tree, Tree/Tree'))
+    nh = 1200 if quick else 40000
+    hist = [gen_history(ctx.rng) for _ in range(nh)]
+    for i in range(0, nh, 2000):
+        d.feed(hist[i:i + 2000])
     n = 3000 if quick else 100000
     cases = [gen_case(ctx.rng) for _ in range(n)]
     for i in range(0, n, 2000):
